@@ -48,6 +48,8 @@ type result struct {
 	steps     int
 	outcome   sched.Outcome
 	closeOrd  string
+	// lateAccepted: the pending Accept returned a connection only after the quiescent point had been inspected
+	lateAccepted bool
 }
 
 // bindable reports whether this process no longer holds a UDP socket bound to 127.0.0.1:port.
@@ -494,6 +496,21 @@ func runOne(sc *scen, st sched.Strategy, settle bool, hit map[int]bool) (rs resu
 		rs.desc = d
 		return rs
 	}
+	// a pending Accept may have returned only now - with an error, or with a connection that a late datagram created just
+	// before the listener was closed (the quiescent point does not cover datagrams still inside the kernel). That
+	// connection is ours to close as well; without this the harness itself would keep the socket open.
+	if sc.PendAccept {
+		for t0 := time.Now(); atomic.LoadInt32(&accReturned) == 0 && time.Since(t0) < 5*time.Second; {
+			time.Sleep(100 * time.Microsecond)
+		}
+		mu.Lock()
+		lateConn := accConn
+		mu.Unlock()
+		if lateConn != nil && lateConn != ac {
+			all = append(all, lateConn)
+			rs.lateAccepted = true
+		}
+	}
 	if k, d := closeAll(); k != "" { // idempotent: a second Close on everything
 		rs.key, rs.desc = k, d+" (second Close)"
 		return rs
@@ -626,6 +643,9 @@ func main() {
 			}
 		}
 		rs := runOne(sc, st, settle, hit)
+		if rs.lateAccepted {
+			r.Count("connections_returned_by_accept_after_the_quiescent_point", 1)
+		}
 		r.Eval(1)
 		r.Count("schedule_steps", int64(rs.steps))
 		r.DistinctKey(strings.Join(rs.trace, " "))
